@@ -55,6 +55,22 @@ Oracle (independent reference; constants from USB 2.0 7.1.7.5/7.1.7.6 in 60 MHz 
 All comparisons allow the decision to be registered up to 3-4 periods later than in the current implementation, but never
 allow a shorter duration than the statement gives.
 
+Deviations from DESIGN.md section 7: HS operation is taken as HIGH + NORMAL (termination not required; more sensitive); the
+Bench is not used (speed); 80 instead of ~120 quick cases because one case averages 0.46 M cycles; the 1 ms minimum of the
+device chirp and the "ends in FS/LS normal mode" clause are added from USB 2.0 7.1.7.5.
+
+Finding on the unchanged tree (known_findings.d/C19.json, findings/C19.md): `chirp_started_while_restricted_after_hs_reset`
+— DETECT_HS_SUSPEND goes to START_HS_DETECTION without looking at full_speed_only / low_speed_only.
+
+Mutation testing (tools/mut.py-style scratch copies, 93 repository tests green unless noted, quick tier exit 1 for all):
+valid_pairs == 1; chirp minimum 150 -> 30; FS reset at 2.5 us (also killed by test_full_speed_reset); FS reset at 297; K / J
+continuity of a chirp state not enforced (2); valid_pairs not cleared at the chirp end; was_hs_pre_suspend not cleared at an FS
+suspend; suspend-reset and FS-reset start the chirp for an LS-only device (2); HS ignores low_speed_only; HS left one cycle late
+(registered restriction); FS SE0 timer cleared by J only; HS SE0 timer cleared by J only; LS idle encoding swapped; suspend at
+2 ms; HS window 100 us; HS window J test inverted; HS SE0 2 ms; suspend reset at 100 cycles; FS idle timer cleared by SE0 only;
+2.5 ms time-out dropped in AWAIT_HOST_K / IN_HOST_K / AWAIT_HOST_J / IN_HOST_J (4); timer not cleared on HS entry; idle timer
+not cleared on the fall-back to FS.
+
 Not judged: that a valid host chirp / a 3 ms idle / a long SE0 *does* lead to HS / suspend / reset (the statement only says
 "only"; the bins hs_via_chirp, suspend_*, reset_* are REQUIRED so that a device that never does it makes the run
 inconclusive); what ends a suspend; the length of the device chirp beyond the 1 ms minimum of USB 2.0; bus_busy longer
@@ -64,7 +80,7 @@ than 300 cycles; "200 us of non-idle" is read as "200 us have passed and the lin
 from bisect import bisect_right
 
 PROPERTY = "C19"
-CASES = {"quick": 88, "thorough": 1600}
+CASES = {"quick": 80, "thorough": 1600}
 TIMEOUT = {"quick": 1500, "thorough": 6 * 3600}
 RULE = ("case = one reactive session of 0.2-0.9 M cycles on the real-constant USBResetSequencer: FS/LS-only playground or one "
         "of six HS plans (resume+FS suspend, HS reset chain, handshake time-out, handshake exits, suspend reset, random walk); "
